@@ -134,6 +134,9 @@ def _evict(parent, keep):
 def ensure_ext():
     """Return a directory to put on sys.path that holds gufo.snmp with the
     release-built _fast.so of the current tree."""
+    if os.environ.get("VERIF_PKG_OVERRIDE"):
+        # mutation self-tests of the Python layer only (tools/pymut.py): a prepared package directory
+        return os.environ["VERIF_PKG_OVERRIDE"]
     h = tree_hash()
     pkg = os.path.join(BUILD, "pkg", h)
     ok = os.path.join(pkg, ".ok")
@@ -172,6 +175,8 @@ def ensure_pyonly():
     """Package dir with only the pure-Python part (for C19: no extension needed).
     policer.py imports nothing from _fast, but gufo.snmp.__init__ does, so the
     module is loaded by path by the check itself."""
+    if os.environ.get("VERIF_PKG_OVERRIDE"):
+        return os.path.join(os.environ["VERIF_PKG_OVERRIDE"], "gufo", "snmp")
     return os.path.join(REPO, "src", "gufo", "snmp")
 
 
